@@ -54,26 +54,54 @@ def is_self_attr(expr: ast.AST, attr: str) -> bool:
     return isinstance(expr, ast.Attribute) and expr.attr == attr and isinstance(expr.value, ast.Name) and expr.value.id == "self"
 
 
+def is_endpoint_call(ctx: Ctx, fn: FuncInfo, node: ast.AST) -> bool:
+    """``<loop>.create_datagram_endpoint(..)``, also through a local alias of the bound method."""
+    if not isinstance(node, ast.Call):
+        return False
+    func = node.func
+    if isinstance(func, ast.Name):
+        func = ctx.defs(fn).single(func.id) or func
+    return isinstance(func, ast.Attribute) and func.attr == "create_datagram_endpoint"
+
+
+def endpoint_factory(ctx: Ctx, fn: FuncInfo):
+    """(protocol class, the constructor call of the factory, the endpoint-creating call) of a sender function."""
+    for node in own_nodes(fn.node):
+        if not is_endpoint_call(ctx, fn, node) or not node.args:
+            continue
+        fac = node.args[0]
+        if isinstance(fac, ast.Name):
+            if fac.id in fn.nested:
+                rets = [n for n in own_nodes(fn.nested[fac.id].node) if isinstance(n, ast.Return)]
+                fac = ast.Lambda(ast.arguments([], [], None, [], [], None, []), rets[0].value) if len(rets) == 1 and rets[0].value is not None and not fn.nested[fac.id].params else fac
+            else:
+                fac = ctx.defs(fn).single(fac.id) or fac
+        body = None
+        if isinstance(fac, ast.Lambda) and not fac.args.args and isinstance(fac.body, ast.Call):
+            body = fac.body
+        elif isinstance(fac, ast.Call) and norm(fac.func).split(".")[-1] == "partial" and fac.args:
+            body = ast.Call(fac.args[0], list(fac.args[1:]), list(fac.keywords))
+        if body is not None:
+            cls = ctx.r.resolve_class(fn.module, body.func)
+            if cls is not None:
+                return cls, body, node
+    return None, None, None
+
+
 def run(ctx: Ctx, rep: Report) -> None:
     rep.rule("C13-R1", "every completion kind of the per-attempt future releases the attempt's transport", floor=4)
-    rep.rule("C13-R2", "retry loop: at most `retries` endpoints; Timeout after exactly `retries` unanswered attempts; return at first reply", floor=10)
-    rep.rule("C13-R3", "identical datagram per attempt, exact timeout, reply bytes returned unmodified, one sendto per endpoint", floor=6)
+    rep.rule("C13-R2", "retry loop: at most `retries` endpoints; Timeout after exactly `retries` unanswered attempts; return at first reply", floor=7)
+    rep.rule("C13-R3", "identical datagram per attempt, exact timeout, reply bytes returned unmodified, one sendto per endpoint", floor=4)
     rep.assumptions += [
         "precondition retries >= 1 (the property's quantifier)",
         "asyncio closes nothing by itself; close()/abort() on the DatagramTransport release the socket; connection_lost is only called for a transport that is already closed",
         "task cancellation is outside the property's outcome set (reported as information only)",
     ]
-    send = default_sender(ctx)
+    send = ctx.inlined(default_sender(ctx))  # one attempt may live in a helper (_exchange_once)
     rep.analysed["sender"] = send.key
+    rep.analysed["sender_helpers_inlined"] = getattr(send, "inlined_helpers", 0)
     # protocol class: created by the factory given to create_datagram_endpoint
-    proto: Optional[ClassInfo] = None
-    factory_call = None
-    for node in own_nodes(send.node):
-        if isinstance(node, ast.Call) and isinstance(node.func, ast.Attribute) and node.func.attr == "create_datagram_endpoint" and node.args:
-            fac = node.args[0]
-            if isinstance(fac, ast.Lambda) and isinstance(fac.body, ast.Call):
-                proto = ctx.r.resolve_class(send.module, fac.body.func)
-                factory_call = fac.body
+    proto, factory_call, _ = endpoint_factory(ctx, send)
     if proto is None or factory_call is None:
         raise AnalysisError("send_udp: protocol factory of create_datagram_endpoint not recognised")
     fut = self_attr_assigned_from(proto, lambda m, v: isinstance(v, ast.Call) and isinstance(v.func, ast.Attribute) and v.func.attr == "create_future")
@@ -169,10 +197,18 @@ def run(ctx: Ctx, rep: Report) -> None:
                 return None
         return None
 
-    def handler_releases(h: ast.ExceptHandler) -> Tuple[bool, str, List]:
+    def handler_releases(h: ast.ExceptHandler, caught: Optional[ast.expr] = None) -> Tuple[bool, str, List]:
+        """Paths through handler *h*; with *caught* the class of the exception being handled decides isinstance tests on it."""
         hn = wcfg.node_of(h)
         rel = {n.id for n in release_nodes(waiter)}
-        outs = simulate(wcfg, transport_env, start=hn)
+
+        def env(expr: ast.expr) -> Optional[bool]:
+            if caught is not None and h.name and isinstance(expr, ast.Call) and isinstance(expr.func, ast.Name) and expr.func.id == "isinstance" and len(expr.args) == 2:
+                if isinstance(expr.args[0], ast.Name) and expr.args[0].id == h.name:
+                    return ctx.exc_matches(waiter, caught, expr.args[1])
+            return transport_env(expr)
+
+        outs = simulate(wcfg, env, start=hn)
         bad = [o for o in outs if o.kind != "raise" or not any(t.id in rel for t in o.trail)]
         return (bool(outs) and not bad), (f"{bad[0]}" if bad else ""), outs
 
@@ -221,7 +257,7 @@ def run(ctx: Ctx, rep: Report) -> None:
     if th is None:
         rep.violated("C13-R1", waiter.site(wait_call), "no reply: the timeout of wait_for is handled by releasing the transport", "no handler for asyncio.TimeoutError around the await", key=f"{waiter.key}|timeout-unhandled")
     else:
-        ok, detail, outs = handler_releases(th)
+        ok, detail, outs = handler_releases(th, timeout_expr)
         rep.check(ok, "C13-R1", waiter.site(th), "no reply: the timeout handler releases the transport on every path and raises", detail, key=f"{waiter.key}|timeout-not-released")
         tcls = ctx.u.cls("puresnmp.exc:Timeout")
         from ..engine.patterns import raised_class
@@ -243,7 +279,7 @@ def run(ctx: Ctx, rep: Report) -> None:
                 get_data_nodes.append(n)
     endpoint_nodes = []
     for node in own_nodes(send.node):
-        if isinstance(node, ast.Call) and isinstance(node.func, ast.Attribute) and node.func.attr == "create_datagram_endpoint":
+        if is_endpoint_call(ctx, send, node):
             n = cfg_node_of(scfg, node)
             if n is not None:
                 endpoint_nodes.append(n)
